@@ -420,15 +420,17 @@ def core_canon(mods, maxpay, nkeys=1):
         mod = _fn(S["mod"])
         nreg = sum(1 for m in mods if mod[m]["reg"])
         if ctx["st"] == "none":
-            parts = ["ctx:none,0,0,0"]
+            parts = ["ctx:none,0,0,0,t0"]
         else:
-            parts = ["ctx:%s,%d,%d,%d" % (ctx["st"], nreg, S["run"], 1 if ctx["quit"] else 0)]
+            parts = ["ctx:%s,%d,%d,%d,t%d" % (ctx["st"], nreg, S["run"], 1 if ctx["quit"] else 0, ctx["tick"])]
         for m in mods:
             x = mod[m]
             if x["st"] in ("none", "zombie"):
-                parts.append("%s:%s:0:0:0:0:0" % (m, x["st"]))
+                parts.append("%s:%s:0:0:0:0:0:-1:0" % (m, x["st"]))
             else:
-                parts.append("%s:%s:%d:%d:%d:%d:%d" % (m, x["st"], len(x["pipe"]), len(x["bq"]), len(x["stash"]), len(x["hs"]), x["blen"]))
+                tb = x["tb"]
+                parts.append("%s:%s:%d:%d:%d:%d:%d:%d:%d" % (m, x["st"], len(x["pipe"]), len(x["bq"]), len(x["stash"]), len(x["hs"]), x["blen"],
+                                                            tb["tok"] if tb["rate"] else -1, 1 if x["bt"] else 0))
         srcs = []
         for m in mods:
             x = mod[m]
@@ -458,6 +460,7 @@ def core_canon(mods, maxpay, nkeys=1):
         rdy = ""
         due = setof(S["due"])
         rd = setof(S["rdy"])
+        idue = setof(S["idue"])
         for m in mods:
             x = mod[m]
             if x["st"] != "running":
@@ -471,6 +474,12 @@ def core_canon(mods, maxpay, nkeys=1):
             for key in range(1, 4):
                 if any(q["k"] == "tmr" and q["key"] == key for q in ss) and any(d[0] == m and d[1] == key for d in due):
                     rdy += "%st%d," % (m, key)
+            if any(d[0] == m and d[1] == "tb" for d in idue):
+                rdy += "%sb0," % m
+            if any(d[0] == m and d[1] == "bt" for d in idue):
+                rdy += "%so0," % m
+        if any(d[1] == "tick" for d in idue):
+            rdy += "k0,"
         return "%s;%s" % (S["ret"], rdy), "|".join(parts)
     return canon
 
@@ -509,6 +518,9 @@ CORE_CFGS = {
     "srca": (["A"], {"VP_CAP": "2", "VP_CTXPERSIST": "1", "VP_NKEYS": "2"}),
     "srcb": (["A"], {"VP_CAP": "2", "VP_CTXPERSIST": "1", "VP_NKEYS": "2"}),
     "fdev": (["A", "B"], {"VP_CAP": "2", "VP_CTXPERSIST": "1", "VP_SETUP": "loop2", "VP_NKEYS": "1"}),
+    "tb": (["A", "B"], {"VP_CAP": "2", "VP_CTXPERSIST": "1", "VP_SETUP": "loop2"}),
+    "btmo": (["A", "B"], {"VP_CAP": "2", "VP_CTXPERSIST": "1", "VP_SETUP": "loop2", "VP_MAXPAY": "2"}),
+    "tick": (["A", "B"], {"VP_CAP": "2", "VP_CTXPERSIST": "1"}),
     "bc2": (["A", "B"], {"VP_CAP": "2", "VP_CTXPERSIST": "1", "VP_SETUP": "loop2", "VP_MAXPAY": "3"}),
     "batch": (["A", "B"], {"VP_CAP": "3", "VP_CTXPERSIST": "1", "VP_SETUP": "loop2", "VP_MAXPAY": "2"}),
     "stash": (["A", "B"], {"VP_CAP": "2", "VP_CTXPERSIST": "1", "VP_SETUP": "loop2", "VP_MAXPAY": "2"}),
@@ -572,13 +584,13 @@ def c08(prop, tier, seed):
 
 @check("C19")
 def c19(prop, tier, seed):
-    return core_check(prop, tier, seed, ["sysmq", "sysc"], ["sysm", "sysc", "sysmq"],
+    return core_check(prop, tier, seed, ["sysmq", "sysc", "tick"], ["sysm", "sysc", "sysmq", "tick"],
                       "Focus: subscriptions to the system topics; notifications are ordinary mailbox messages (sender, topic, system flag compared).")
 
 
 @check("C13")
 def c13(prop, tier, seed):
-    return core_check(prop, tier, seed, ["batch"], ["batch"],
+    return core_check(prop, tier, seed, ["batch", "btmo"], ["batch", "btmo"],
                       "Focus: low/normal/high priority subscriptions, batch sizes, which arrival triggers a handler invocation and with which events.", Dq=7, Dt=9)
 
 
@@ -610,3 +622,9 @@ def c03(prop, tier, seed):
 def c20(prop, tier, seed):
     return core_check(prop, tier, seed, ["fdev", "srca"], ["fdev", "srca", "life"],
                       "Focus: descriptor ledger: library descriptors (poll handle, pipes, timer descriptors) all closed in clean states, user descriptors closed only through auto-close and exactly once.", Dq=5, Dt=7)
+
+
+@check("C18")
+def c18(prop, tier, seed):
+    return core_check(prop, tier, seed, ["tb"], ["tb"],
+                      "Focus: token bucket: every kind of rate-limited call with 0, 1, 2 tokens (EAGAIN and no effect without a token), refill ticks capped at the burst, rate 0 and stop remove the limit; token count compared after every step.", Dq=6, Dt=8)
